@@ -5,7 +5,8 @@ G(i, t, c, s, e, u, k) == [id |-> i, type |-> t, cmd |-> c, start |-> s, exp |->
 \* later, one that expires early, another user with the same key, another key with the same user, port forwarding
 Pal == { G(1, "cmd", "A", 0, 3, "u1", "k1"), G(2, "shell", "-", 1, 3, "u1", "k1"), G(3, "cmd", "A", 0, 1, "u1", "k1"),
          G(4, "cmd", "AB", 0, 3, "u1", "k1"), G(5, "cmd", "B", 0, 3, "u2", "k1"), G(6, "cmd", "A", 0, 3, "u1", "k2"),
-         G(7, "localpf", "-", 0, 2, "u1", "k1"), G(8, "shell", "-", 0, 3, "u1", "k1") }
+         G(7, "localpf", "-", 0, 2, "u1", "k1"), G(8, "shell", "-", 0, 3, "u1", "k1"),
+         G(9, "remotepf", "-", 1, 3, "u1", "k1") }
 VARIABLE hist
 SimInit == Init /\ hist = <<>>
 Obs == [store |-> [u \in Users |-> [k \in Keys |-> Len(store'[<<u, k>>])]], keyset |-> keyset']
